@@ -258,6 +258,10 @@ func genC05Case(r *rand.Rand, clients, readers, opsPer int) c05Case {
 				case 1:
 					ops = append(ops, c05Op{Client: cl, Kind: "ulookup", IDs: []string{c05PairID}})
 				case 2:
+					if r.Intn(2) == 0 {
+						ops = append(ops, c05Op{Client: cl, Kind: "feedlo", DS: []string{c.Datasets[r.Intn(3)]}})
+						continue
+					}
 					ops = append(ops, c05Op{Client: cl, Kind: "list", DS: []string{c.Datasets[r.Intn(3)]}})
 				default:
 					ops = append(ops, c05Op{Client: cl, Kind: "feed", DS: []string{c.Datasets[r.Intn(3)]}})
@@ -703,6 +707,11 @@ func tagOf(r *obs.Rec) string {
 	return t
 }
 
+var (
+	c05SeenMu sync.Mutex
+	c05Seen   = map[string]map[string]bool{}
+)
+
 func c05Do(core *hub.Core, op c05Op, rec *c05Rec, visMu *sync.Mutex, vis *[]string) {
 	st := core.Store
 	addVis := func(s string) {
@@ -855,6 +864,49 @@ func c05Do(core *hub.Core, op c05Op, rec *c05Rec, visMu *sync.Mutex, vis *[]stri
 		if ha != hb || ta != tb {
 			addVis(fmt.Sprintf("one listing call of %s saw the twin entities (always written together in one batch) at different batches: %q vs %q", op.DS[0], ta, tb))
 		}
+	case "feedlo":
+		// one latest-only page: the twin entities are always written together in one batch, so the newest version
+		// of both comes from the same batch
+		ds := core.Dsm.GetDataset(op.DS[0])
+		if ds == nil {
+			return
+		}
+		ch, err := ds.GetChanges(0, 0, true)
+		if err != nil {
+			rec.err = err.Error()
+			return
+		}
+		var ta, tb string
+		var ha, hb bool
+		for _, e := range ch.Entities {
+			r := obs.Canon(st, e)
+			if r.ID == c05TwinA {
+				ta, ha = tagOf(&r), true
+			}
+			if r.ID == c05TwinB {
+				tb, hb = tagOf(&r), true
+			}
+		}
+		if ha != hb || ta != tb {
+			addVis(fmt.Sprintf("one latest-only feed page of %s saw the twin entities (always written together in one batch) at different batches: %q (present %v) vs %q (present %v)", op.DS[0], ta, ha, tb, hb))
+		}
+		// a latest-only page holds the newest version of EVERY entity of the dataset: an entity this reader has
+		// seen in an earlier page cannot be missing from a later one
+		key := fmt.Sprintf("%p|%d|%s", core, op.Client, op.DS[0])
+		page := map[string]bool{}
+		for _, e := range ch.Entities {
+			page[obs.Canon(st, e).ID] = true
+		}
+		c05SeenMu.Lock()
+		prev := c05Seen[key]
+		for id := range prev {
+			if !page[id] {
+				addVis(fmt.Sprintf("a latest-only feed page of %s (%d entities) lacks %s, which the same reader saw in an earlier latest-only page of that dataset: the page mixes two points in time", op.DS[0], len(page), id))
+				break
+			}
+		}
+		c05Seen[key] = page
+		c05SeenMu.Unlock()
 	case "feed":
 		ds := core.Dsm.GetDataset(op.DS[0])
 		if ds == nil {
